@@ -6,6 +6,7 @@ import (
 	"context"
 	"fmt"
 	"strings"
+	"time"
 
 	"github.com/ovh/kmip-go"
 	"github.com/ovh/kmip-go/kmipclient"
@@ -96,7 +97,7 @@ func mwScenario(nReq, nMsg, nItem int, retry bool) func() {
 // cliMwScenario: nReq callers share one kmipclient.Client (and hence its middleware slice) with nMw yielding stages over a
 // scripted echo server; stage `retry` (if >= 0) invokes its continuation twice. Each caller's trace must be the
 // reference trace and its response must carry its own identifier (the innermost stage is the real transport).
-func cliMwScenario(nReq, nMw, retry int) func() {
+func cliMwScenario(nReq, nMw, retry int, libmw ...bool) func() {
 	return func() {
 		resetPackages()
 		w := &cliWorld{seen: map[string]int{}}
@@ -113,6 +114,13 @@ func cliMwScenario(nReq, nMw, retry int) func() {
 				}
 				return next(ctx, msg)
 			})
+		}
+		if len(libmw) > 0 && libmw[0] && len(mws) > 0 {
+			// the library's own stages between the harness' ones: a 1 s timeout (abstract time: its timer may fire at any
+			// point; a call that fails after a timer fired is excused) and the correlation value stage
+			n := 0
+			lib := []kmipclient.Middleware{kmipclient.TimeoutMiddleware(time.Second), kmipclient.CorrelationValueMiddleware(func() string { n++; return fmt.Sprint("c", n) })}
+			mws = append(append(append([]kmipclient.Middleware{}, mws[:1]...), lib...), mws[1:]...)
 		}
 		cl, err := kmipclient.DialContext(context.Background(), "mc", kmipclient.WithDialerUnsafe(w.dialer), kmipclient.EnforceVersion(kmip.V1_4), kmipclient.WithMiddlewares(mws...))
 		if err != nil {
@@ -145,7 +153,9 @@ func cliMwScenario(nReq, nMw, retry int) func() {
 				id := fmt.Sprint("id", r)
 				resp, err := cl.Request(ctx, &payloads.ActivateRequestPayload{UniqueIdentifier: id})
 				if err != nil {
-					mc.Failf("middleware-chain-under-concurrency: client call %d failed: %v", r, err)
+					if mc.TimersFired() == 0 {
+						mc.Failf("middleware-chain-under-concurrency: client call %d failed although no timer had fired: %v", r, err)
+					}
 				} else if pl, ok := resp.(*payloads.ActivateResponsePayload); !ok || pl.UniqueIdentifier != id {
 					mc.Failf("middleware-chain-under-concurrency: client call %d got %v", r, resp)
 				} else if strings.Join(tr, " ") != want {
@@ -160,7 +170,7 @@ func cliMwScenario(nReq, nMw, retry int) func() {
 		}
 		_ = cl.Close()
 		for id, n := range w.seen {
-			if n != sends {
+			if n != sends && mc.TimersFired() == 0 {
 				mc.Failf("middleware-chain-under-concurrency: request %s reached the transport %d times, expected %d", id, n, sends)
 			}
 		}
@@ -176,6 +186,7 @@ func init() {
 	reg("mw-conc-3x2", "three concurrent first requests, 2 message stages, 1 item stage", mwScenario(3, 2, 1, false))
 	reg("cmw-conc-2x2", "two concurrent callers through one client with 2 middlewares over a real connection", cliMwScenario(2, 2, -1))
 	reg("cmw-conc-2x2-retry", "two concurrent callers, 2 client middlewares, the outer one calls next twice", cliMwScenario(2, 2, 0))
+	reg("cmw-conc-2x2-libmw", "two concurrent callers through [harness stage, library timeout stage, library correlation stage, harness stage]", cliMwScenario(2, 2, -1, true))
 	reg("cmw-conc-3x1", "three concurrent callers, 1 client middleware", cliMwScenario(3, 1, -1))
 	reg("mw-conc-2x2-retry", "two concurrent requests, the outermost message stage calls next twice", mwScenario(2, 2, 1, true))
 }
